@@ -23,7 +23,7 @@ def junkE : Expr → List Nat
   | .letE _ a b => junkE a ++ junkE b
   | .letTup _ a b => junkE a ++ junkE b
   | .assign _ a b => junkE a ++ junkE b
-  | .ite c a b => junkE c ++ (junkE a ++ sitesE b)
+  | .ite c a b => junkE c ++ (junkE a ++ junkE b)
   | .tup es => junkL es
   | .app f args => junkE f ++ junkL args
   | .mem a _ => junkE a
@@ -79,13 +79,12 @@ theorem pubE_visitsZ (P : Prog) (tbl : Table) (ok : String → Bool) (ht : Table
     obtain ⟨sc, sa, sb, hc, h1, h2, rfl⟩ := pubE_ite_inv h
     rw [armsZE] at ha
     simp only [Bool.and_eq_true] at ha
-    obtain ⟨⟨⟨oc, oa⟩, ea⟩, eb⟩ := ha
+    obtain ⟨⟨⟨⟨oc, oa⟩, ob⟩, ea⟩, eb⟩ := ha
     have za := stateless_of_isStateless ea h1
     have zb := stateless_of_isStateless eb h2
-    rw [stateless_sizeL sa za, stateless_sizeL sb zb]
-    simp only [Nat.lt_irrefl, if_false]
     rw [junkE]
     exact .ite (pubE_visitsZ P tbl ok ht c sc oc hc) (pubE_visitsZ P tbl ok ht a sa oa h1) za
+      (pubE_visitsZ P tbl ok ht b sb ob h2) zb
   | .tup es, seg, ha, h => by
     rw [pubE] at h; rw [armsZE] at ha; rw [junkE]
     exact .tup (pubL_visitsZ P tbl ok ht es seg ha h)
@@ -201,14 +200,13 @@ theorem pubE_junk (tbl : Table) (ok : String → Bool) (ht : TableOk tbl) :
     rw [siteLens] at hl ⊢; rw [junkE]
     rw [armsZE] at ha
     simp only [Bool.and_eq_true] at ha
-    obtain ⟨⟨⟨oc, oa⟩, ea⟩, eb⟩ := ha
-    have za := stateless_of_isStateless ea h1
-    have zb := stateless_of_isStateless eb h2
-    rw [stateless_sizeL sa za, stateless_sizeL sb zb]
-    simp only [Nat.lt_irrefl, if_false]
+    obtain ⟨⟨⟨⟨oc, oa⟩, ob⟩, _⟩, _⟩ := ha
     have ga := pubE_good tbl ht a sa hl.right.left h1
-    exact JunkOk.append hl (pubE_good tbl ht c sc hl.left hc) (ga.left _) (pubE_junk tbl ok ht c sc hl.left oc hc)
-      (JunkOk.arms hl.right ga (pubE_junk tbl ok ht a sa hl.right.left oa h1))
+    have gb := pubE_good tbl ht b sb hl.right.right h2
+    exact JunkOk.append hl (pubE_good tbl ht c sc hl.left hc) (Good.append hl.right ga gb)
+      (pubE_junk tbl ok ht c sc hl.left oc hc)
+      (JunkOk.append hl.right ga gb (pubE_junk tbl ok ht a sa hl.right.left oa h1)
+        (pubE_junk tbl ok ht b sb hl.right.right ob h2))
   | .tup es, seg, hl, ha, h => by
     rw [pubE] at h; rw [siteLens] at hl ⊢; rw [armsZE] at ha; rw [junkE]
     exact pubL_junk tbl ok ht es seg hl ha h
@@ -305,9 +303,9 @@ theorem armsZE_of_armsOkE (tbl : Table) (ok ok' : String → Bool) (hok : ∀ f,
   | .ite c a b, h => by
     rw [armsOkE] at h; rw [armsZE]
     simp only [Bool.and_eq_true] at h ⊢
-    obtain ⟨⟨⟨⟨oc, oa⟩, _⟩, ea⟩, eb⟩ := h
-    exact ⟨⟨⟨armsZE_of_armsOkE tbl ok ok' hok c oc, armsZE_of_armsOkE tbl ok ok' hok a oa⟩,
-      isStateless_of_isNil ea⟩, isStateless_of_isNil eb⟩
+    obtain ⟨⟨⟨⟨oc, oa⟩, ob⟩, ea⟩, eb⟩ := h
+    exact ⟨⟨⟨⟨armsZE_of_armsOkE tbl ok ok' hok c oc, armsZE_of_armsOkE tbl ok ok' hok a oa⟩,
+      armsZE_of_armsOkE tbl ok ok' hok b ob⟩, isStateless_of_isNil ea⟩, isStateless_of_isNil eb⟩
   | .tup es, h => by rw [armsOkE] at h; rw [armsZE]; exact armsZL_of_armsOkL tbl ok ok' hok es h
   | .app f args, h => by
     rw [armsOkE, Bool.and_eq_true] at h; rw [armsZE, Bool.and_eq_true]
